@@ -555,7 +555,9 @@ def run_property(pid: str, props_file: str, streams: list[Stream], tier: str, se
         del ev["coverage"]["discharged"]
         ev["coverage"]["proofs_built"] = False
     (ROOT / "evidence").mkdir(exist_ok=True)
-    (ROOT / "evidence" / f"{pid}.json").write_text(json.dumps(ev, indent=1, default=str))
+    # a --replay run judges one stored case: it must not replace the evidence of a full run
+    ev_name = f"{pid}.json" if replay_case is None else f"{pid}.replay.json"
+    (ROOT / "evidence" / ev_name).write_text(json.dumps(ev, indent=1, default=str))
 
     for line in known_lines:
         print(line)
